@@ -319,8 +319,9 @@ func TestVerifC03(t *testing.T) {
 		victim.Name, victim.Observer = "victim", true
 		// an honest-looking proposer that is NOT eligible: a plain account / an offline identity
 		outsiderA := NewActor(seed, "outsider", 0)
-		if err := w.Prologue(); err != nil {
-			t.Fatal(err)
+		if !startScenario(w, rep, false) {
+			w.Cleanup()
+			continue
 		}
 		s := NewScenario(w, verifutil.NewRng(seed, 3))
 		s.Hostile, s.MaxTxs, s.EmptyPct = 10, 7, 20
@@ -353,19 +354,19 @@ func TestVerifC03(t *testing.T) {
 						rep.Count("noop_operators_skipped", 1)
 						continue // e.g. nil -> empty byte string: indistinguishable on the wire
 					}
-					tryTampered(rep, w, victim, before, b, nb, op.name, kind)
+					tryTampered(rep, w, victim, &before, b, nb, op.name, kind)
 				}
 				// ineligible proposer: a complete, self-consistent block built by the real
 				// ProposeBlock of a node whose key is not an online identity (isolates eligibility)
 				if !b.IsEmpty() {
 					if nb := proposeAs(w, victim, outsiderA); nb != nil {
-						tryTampered(rep, w, victim, before, b, nb, "Proposer/not-an-identity", kind)
+						tryTampered(rep, w, victim, &before, b, nb, "Proposer/not-an-identity", kind)
 					}
 					if off := w.pickActor(r, func(a *Actor, _ stateIdentity) bool {
 						return victim.AppState.ValidatorsCache.IsValidated(a.Addr) && !victim.AppState.ValidatorsCache.IsOnlineIdentity(a.Addr) && a != w.God
 					}); off != nil {
 						if nb := proposeAs(w, victim, off); nb != nil {
-							tryTampered(rep, w, victim, before, b, nb, "Proposer/offline-identity", kind)
+							tryTampered(rep, w, victim, &before, b, nb, "Proposer/offline-identity", kind)
 						}
 					}
 				}
@@ -390,7 +391,8 @@ func TestVerifC03(t *testing.T) {
 
 type stateIdentity = stateIdentityAlias
 
-func tryTampered(rep *verifutil.Report, w *World, victim *Replica, before victimSnap, orig, nb *types.Block, op, kind string) {
+func tryTampered(rep *verifutil.Report, w *World, victim *Replica, beforeP *victimSnap, orig, nb *types.Block, op, kind string) {
+	before := *beforeP
 	rep.Eval(1)
 	rep.Count("op:"+op, 1)
 	rep.Distinct(op, kind)
@@ -403,6 +405,7 @@ func tryTampered(rep *verifutil.Report, w *World, victim *Replica, before victim
 		if e2 == nil {
 			victim.Chain.ResetTo(orig.Height() - 1)
 		}
+		*beforeP = snapVictim(victim) // the recovery itself rewrites the db: later operators compare with the new state
 		return
 	}
 	rep.Count("rejected:"+ErrClass(e2), 1)
